@@ -559,7 +559,7 @@ func TestVerifC13Crosstalk(t *testing.T) {
 	for k, v := range c13xSeen {
 		r.Count("crosstalk_seen_"+k, v)
 	}
-	r.Count("crosstalk_executions_repeating_a_fingerprint_already_reported_in_another_scenario", c13xRepeats)
+	r.Count("crosstalk_violating_executions_counted_but_not_reported_again", c13xRepeats)
 	if cut > 0 || only != "" {
 		return // sections say exhaustive=false; coverage guards are only meaningful for complete runs
 	}
